@@ -244,9 +244,12 @@ def check_consumer(ctx, F, parent, acc, cfn):
                             if rp is not None:
                                 rp = kb.root_place(rp, through_names=True)
                                 flds = [e for e in rp["p"] if isinstance(e, dict) and "f" in e]
-                                if rp["l"] == kb.argc and flds and flds[0]["f"] == 0:
+                                if rp["l"] == kb.argc and flds:
+                                    # the element's field the sort goes by (a tuple's .0 or a struct's tag field); the rule on the
+                                    # pushes (check_sort_key) asks that this very field holds the iterator's own item key
                                     okk = True
-                ctx.ob(R, "sort-key-is-tag|%s|%s" % (pfn, acc), okk, "the sort key is the tag stored as element .0", parent.where(s.ln),
+                                    ctx.__dict__.setdefault("_sort_field", {})[acc] = flds[0]["f"]
+                ctx.ob(R, "sort-key-is-tag|%s|%s" % (pfn, acc), okk, "the sort key is one field of the element (the tag)", parent.where(s.ln),
                        what="accumulator %s is sorted by something other than the per-block tag" % acc)
             continue
         # commutative table: the loop over the accumulator may call only the reviewed callee
@@ -273,8 +276,9 @@ def check_sort_key(ctx, F, cb, acc, cfn):
     for c in pushes:
         d = cb.def_rv(c.args[1])
         tag = None
-        if d and d[2] == "rv" and d[3]["k"] == "agg" and d[3]["kind"].get("a") == "tuple" and d[3]["ops"]:
-            tag = d[3]["ops"][0]
+        fld = getattr(ctx, "_sort_field", {}).get(acc, 0)
+        if d and d[2] == "rv" and d[3]["k"] == "agg" and d[3]["kind"].get("a") in ("tuple", "adt") and len(d[3]["ops"]) > fld:
+            tag = d[3]["ops"][fld]
         ok = False
         how = "?"
         if tag is not None:
